@@ -3,6 +3,7 @@ defaults), every single-point mutation (unknown key, missing required key, wrong
 component/composite) is rejected."""
 import copy
 import zlib
+import tomllib
 import os
 
 import tomlw
@@ -314,6 +315,41 @@ def layer_api_routes(lmon, work, idx, valid_text, mtexts, sh):
     vp.rmtree(root)
 
 
+_BP = 'api = "0.10"\n'
+_BPT = '\n[buildpack]\nid = "a/b"\nversion = "1.0.0"\n'
+# a table written as an array of its values (in the order the spec lists the keys): not a value of the right kind
+TABLE_AS_ARRAY = [("layer_toml", "types", 'types = [true, false, true]\n'),
+                  ("composite", "order[].group[]", _BP + _BPT + '[[order]]\ngroup = [["a/c", "1.0.0"]]\n'),
+                  ("composite", "order[]", _BP + 'order = [[[{id = "a/c", version = "1.0.0"}]]]\n' + _BPT),
+                  ("component", "targets[]", _BP + 'targets = [["linux", "amd64"]]\n' + _BPT),
+                  ("component", "stacks[]", _BP + 'stacks = [["io.buildpacks.stacks.jammy"]]\n' + _BPT),
+                  ("component", "buildpack.licenses[]", _BP + _BPT + 'licenses = [["MIT", "https://example.com/license"]]\n'),
+                  ("component", "targets[].distros[]", _BP + _BPT + '[[targets]]\nos = "linux"\ndistros = [["ubuntu", "24.04"]]\n'),
+                  ("package", "buildpack", 'buildpack = ["."]\n'),
+                  ("package", "dependencies[]", 'dependencies = [["docker://docker.io/x/y"]]\n[buildpack]\nuri = "."\n'),
+                  ("package", "platform", 'platform = ["linux"]\n[buildpack]\nuri = "."\n'),
+                  ("launch", "labels[]", 'labels = [["k", "v"]]\n'),
+                  ("launch", "processes[]", 'processes = [["web", ["run"]]]\n'),
+                  ("launch", "slices[]", 'slices = [[["a/*"]]]\n'),
+                  ("buildpack_plan", "entries[]", 'entries = [["x"]]\n'),
+                  ("store", "metadata", 'metadata = [1]\n')]
+
+
+def table_as_array_probes(mon, tmp, sh):
+    items = [[t, text, via] for t, _, text in TABLE_AS_ARRAY for via in (False, True)]
+    res = mon.call({"op": "docs", "items": items, "tmp": tmp})["results"]
+    for (t, where, text), via, x in ((TABLE_AS_ARRAY[i // 2], bool(i % 2), r) for i, r in enumerate(res)):
+        sh.evaluations += 1
+        sh.nontrivial.add((t, where, "table-as-array"))
+        try:
+            tomllib.loads(text)
+        except Exception as e:  # noqa: BLE001
+            raise vp.Broken("table-as-array probe is not valid TOML: %s\n%s" % (e, text))
+        if x["ok"]:
+            sh.violation("table-as-array:%s" % t, "the table %s of a %s document written as an array of its values (%s) is accepted%s; parsed as %r"
+                         % (where, t, text.strip().replace("\n", " / "), " (read from a file with read_toml_file)" if via else "", x["value"]), {"format": t, "as": t, "kind": "table-as-array", "where": where, "text": text, "via_file": via})
+
+
 def shard_run(arg):
     seed, idxs, work = arg
     sh = vp.Shard()
@@ -322,6 +358,8 @@ def shard_run(arg):
     tmp = os.path.join(work, "c08-%d.toml" % os.getpid())
     fmts = list(FORMATS)
     try:
+        if idxs and idxs[0] == 0:
+            table_as_array_probes(mon, tmp, sh)
         for idx in idxs:
             r = vp.rng(seed, "c08", idx)
             fmt = fmts[idx % len(fmts)] if idx % 3 else r.choice(["component", "composite"])
